@@ -21,7 +21,7 @@ static std::vector<Cell> build_cells(bool thorough) {
   std::vector<Cell> cells;
   struct Cfg { uint8_t lg_k; uint32_t trials; int max_mi; };
   std::vector<Cfg> cfgs;
-  if (!thorough) cfgs = {{4, 300, NMULTS - 1}, {6, 300, NMULTS - 1}, {9, 300, NMULTS - 1}, {11, 200, NMULTS - 2}};
+  if (!thorough) cfgs = {{4, 300, NMULTS - 1}, {6, 300, NMULTS - 1}, {9, 200, NMULTS - 1}, {11, 200, NMULTS - 3}};
   else cfgs = {{4, 3000, NMULTS - 1}, {5, 3000, NMULTS - 1}, {6, 3000, NMULTS - 1}, {7, 3000, NMULTS - 1}, {8, 3000, NMULTS - 1}, {9, 3000, NMULTS - 1},
                {10, 3000, NMULTS - 1}, {11, 2000, NMULTS - 1}, {12, 1500, NMULTS - 1}, {13, 1000, NMULTS - 2}, {14, 600, NMULTS - 3}};
   for (int f = 0; f < F_N; ++f)
